@@ -46,7 +46,7 @@ T_EMPTY == <<>>
 
 Tokens(p) ==
   (IF Rich THEN {T_ID, T_ID2, T_NUM, T_STR, T_CHR, T_PAR, T_ESC, T_BRK, T_EXPR, T_CHR2, T_EMPTY}
-   ELSE {T_ID2, T_STR, T_CHR, T_PAR, T_ESC, T_EXPR})
+   ELSE {T_ID2, T_STR, T_ESC, T_EXPR})
   \cup (IF p.qq = QQ_Z80 THEN {T_AFQ} ELSE {})
   \cup (IF p.qq = QQ_Z80X THEN {T_AFQ, T_AQ} ELSE {})
   \cup (IF p.qq = QQ_75K0 THEN {T_XAQ} ELSE {})
@@ -75,9 +75,9 @@ Choices(p, l) ==
      lf \in (IF l.lab = <<>> THEN {"none"} ELSE {"col1", "col1colon", "indcolon"}),
      ld \in (IF l.lab = <<>> THEN WS1 ELSE {<<SPC>>}),
      s1 \in (IF l.lab = <<>> THEN {<<>>} ELSE WS0), s2 \in (IF l.args = <<>> THEN {<<SPC>>} ELSE WS1),
-     pr \in (IF Len(l.args) < 2 THEN {<<>>} ELSE {<<>>, <<SPC>>}), po \in (IF Len(l.args) < 2 THEN {<<>>} ELSE WS0),
+     pr \in (IF Len(l.args) < 2 THEN {<<>>} ELSE {<<>>, <<SPC>>, <<TAB>>}), po \in (IF Len(l.args) < 2 THEN {<<>>} ELSE WS0),
      dt \in (IF p.div[1] = SPC /\ Len(l.args) > 1 THEN BOOLEAN ELSE {FALSE}),
-     tr \in {<<>>, <<TAB>>}, cm \in Cmts(p), eo \in Eols, ca \in {"keep", "upper", "lower"}}
+     tr \in {<<>>, <<TAB>>}, cm \in Cmts(p), eo \in Eols, ca \in {"keep", "upper", "lower", "swap"}}
 
 \* what the manual requires of a spelling (everything else is free):
 Allowed(p, l, ch) ==
@@ -96,10 +96,10 @@ Canon0(l) == [lform |-> IF l.lab = <<>> THEN "none" ELSE "col1", lead |-> <<SPC>
 LForms(l) == IF l.lab = <<>> THEN {"none"} ELSE {"col1", "col1colon", "indcolon"}
 Leads(l)  == IF l.lab = <<>> THEN WS1 ELSE {<<SPC>>}
 Sep1s(l)  == IF l.lab = <<>> THEN {<<>>} ELSE WS0
-Pres(l)   == IF Len(l.args) < 2 THEN {<<>>} ELSE {<<>>, <<SPC>>}
+Pres(l)   == IF Len(l.args) < 2 THEN {<<>>} ELSE {<<>>, <<SPC>>, <<TAB>>}
 Posts(l)  == IF Len(l.args) < 2 THEN {<<>>} ELSE WS0
 Sep2s(l)  == IF l.args = <<>> THEN {<<SPC>>} ELSE WS1
-Cases     == {"keep", "upper", "lower"}
+Cases     == {"keep", "upper", "lower", "swap"}
 Trails    == {<<>>, <<TAB>>}
 Star(p, l) ==
   LET k == Canon0(l) IN
